@@ -1,0 +1,68 @@
+//go:build verif
+
+// Verification hooks (build tag `verif`): accessors for unexported state of network nodes and of the
+// fast solver. Nothing here is compiled without the tag and nothing existing is rewritten.
+package network
+
+import neatmath "github.com/yaricom/goNEAT/v4/neat/math"
+
+// VerifNodeState is the hidden per-node activation state
+type VerifNodeState struct {
+	Visited          bool
+	IsActive         bool
+	LastActivation   float64
+	LastActivation2  float64
+	Activation       float64
+	ActivationsCount int32
+	ActivationSum    float64
+}
+
+func VerifNodeState_(n *NNode) VerifNodeState {
+	return VerifNodeState{Visited: n.visited, IsActive: n.isActive, LastActivation: n.lastActivation,
+		LastActivation2: n.lastActivation2, Activation: n.Activation, ActivationsCount: n.ActivationsCount,
+		ActivationSum: n.ActivationSum}
+}
+
+func VerifSetVisited(n *NNode, v bool) { n.visited = v }
+
+func VerifNetInputs(n *Network) []*NNode       { return n.inputs }
+func VerifNetAllNodes(n *Network) []*NNode     { return n.allNodes }
+func VerifNetControlNodes(n *Network) []*NNode { return n.controlNodes }
+func VerifNetAllNodesMIMO(n *Network) []*NNode { return n.allNodesMIMO }
+
+// VerifFastState is the complete state of a fast solver
+type VerifFastState struct {
+	NeuronSignals               []float64
+	NeuronSignalsBeingProcessed []float64
+	ActivationFunctions         []neatmath.NodeActivationType
+	BiasList                    []float64
+	Modules                     []*FastControlNode
+	Connections                 []*FastNetworkLink
+	InputNeuronCount            int
+	SensorNeuronCount           int
+	OutputNeuronCount           int
+	BiasNeuronCount             int
+	TotalNeuronCount            int
+	Activated                   []bool
+	InActivation                []bool
+	LastActivation              []float64
+	AdjacentList                [][]int
+	ReverseAdjacentList         [][]int
+	AdjacentMatrix              [][]float64
+}
+
+func VerifFastState_(s *FastModularNetworkSolver) VerifFastState {
+	return VerifFastState{NeuronSignals: s.neuronSignals, NeuronSignalsBeingProcessed: s.neuronSignalsBeingProcessed,
+		ActivationFunctions: s.activationFunctions, BiasList: s.biasList, Modules: s.modules, Connections: s.connections,
+		InputNeuronCount: s.inputNeuronCount, SensorNeuronCount: s.sensorNeuronCount,
+		OutputNeuronCount: s.outputNeuronCount, BiasNeuronCount: s.biasNeuronCount, TotalNeuronCount: s.totalNeuronCount,
+		Activated: s.activated, InActivation: s.inActivation, LastActivation: s.lastActivation,
+		AdjacentList: s.adjacentList, ReverseAdjacentList: s.reverseAdjacentList, AdjacentMatrix: s.adjacentMatrix}
+}
+
+func VerifFastForwardStep(s *FastModularNetworkSolver, maxAllowedSignalDelta float64) (bool, error) {
+	return s.forwardStep(maxAllowedSignalDelta)
+}
+func VerifFastRecursiveActivateNode(s *FastModularNetworkSolver, node int) (bool, error) {
+	return s.recursiveActivateNode(node)
+}
